@@ -202,6 +202,13 @@ static void anticlick(struct mixer_voice *vi)
 	vi->old_vr = 0;
 }
 
+/* Accumulate with wrap-around (see MIX_OUT in mix_all.c). */
+#define ACC_ADD(p, x) do { \
+	*(p) = (int32)((uint32)*(p) + (uint32)(x)); \
+	(p)++; \
+} while (0)
+#define ACC_DIFF(a, b) ((int32)((uint32)(a) - (uint32)(b)))
+
 /* Ok, it's messy, but it works :-) Hipolito */
 static void do_anticlick(struct context_data *ctx, int voc, int32 *buf, int count)
 {
@@ -240,14 +247,14 @@ static void do_anticlick(struct context_data *ctx, int voc, int32 *buf, int coun
 			/* Truncate to 16-bits of precision so the product is 32-bits. */
 			stepmul_sq = stepmul >> (ANTICLICK_FPSHIFT - 16);
 			stepmul_sq *= stepmul_sq;
-			*buf++ += (stepmul_sq * (int64)smp_l) >> 32;
-			*buf++ += (stepmul_sq * (int64)smp_r) >> 32;
+			ACC_ADD(buf, (stepmul_sq * (int64)smp_l) >> 32);
+			ACC_ADD(buf, (stepmul_sq * (int64)smp_r) >> 32);
 		}
 	} else {
 		while ((stepmul -= stepval) > 0) {
 			stepmul_sq = stepmul >> (ANTICLICK_FPSHIFT - 16);
 			stepmul_sq *= stepmul_sq;
-			*buf++ += (stepmul_sq * (int64)smp_l) >> 32;
+			ACC_ADD(buf, (stepmul_sq * (int64)smp_l) >> 32);
 		}
 	}
 }
@@ -760,10 +767,10 @@ void libxmp_mixer_softmixer(struct context_data *ctx)
 
 					/* For Hipolito's anticlick routine */
 					if (~s->format & XMP_FORMAT_MONO) {
-						vi->sleft = buf_pos[-2] - prev_l;
-						vi->sright = buf_pos[-1] - prev_r;
+						vi->sleft = ACC_DIFF(buf_pos[-2], prev_l);
+						vi->sright = ACC_DIFF(buf_pos[-1], prev_r);
 					} else {
-						vi->sleft = buf_pos[-1] - prev_l;
+						vi->sleft = ACC_DIFF(buf_pos[-1], prev_l);
 					}
 				}
 			}
